@@ -29,7 +29,9 @@ Record invS (s : state) : Prop := mkInvS {
   iS_kinit : forall ie ev p, get_event ie s = Some ev -> kind ev = KInit p ->
              (exists pr, get_proc p s = Some pr) /\ out ev = Some (Ok VNone) /\
              (cbs ev = None \/ exists r, cbs ev = Some (CbResume p :: r));
-  iS_tgt : forall p pr t, get_proc p s = Some pr -> ptarget pr = Some t -> exists tev, get_event t s = Some tev }.
+  iS_tgt : forall p pr t, get_proc p s = Some pr -> ptarget pr = Some t -> exists tev, get_event t s = Some tev;
+  iS_init : forall p pr, get_proc p s = Some pr ->
+            exists iev, get_event (S (pev pr)) s = Some iev /\ kind iev = KInit p }.
 
 Record invC (run : option pid) (pe : evid) (pend : list cb) (s : state) : Prop := mkInvC {
   iC_intr : forall e ev l i, get_event e s = Some ev -> cbs ev = Some l -> In (CbInterrupt i) l ->
@@ -78,7 +80,7 @@ Lemma inv_frame run pe pend s s' :
 Proof.
   destruct s, s'. cbn. intros -> -> -> -> ->. intros (HS & HC & HA).
   split; [|split].
-  - destruct HS as [A B C D E]. constructor; assumption.
+  - destruct HS as [A B C D E F0]. constructor; assumption.
   - destruct HC as [A B C D E R0]. constructor; assumption.
   - destruct HA as [A B C D E F G]. constructor; assumption.
 Qed.
@@ -225,7 +227,7 @@ Qed.
 
 Lemma invS_es0 s s' : evs_step0 s s' -> invS s -> invS s'.
 Proof.
-  intros X [A B C D E]. constructor.
+  intros X [A B C D E F0]. constructor.
   - intros p pr H. rewrite (es0_proc _ _ _ X) in H. destruct (A _ _ H) as (ev & H1 & K1).
     destruct (es0_ev _ _ X _ _ H1) as (ev' & H2 & S2). exists ev'. split; [exact H2|].
     apply (proj1 (step_kind_fw _ _ S2)), K1.
@@ -249,6 +251,9 @@ Proof.
     + right. apply (S7 _ _ D4 eq_refl).
   - intros p pr t H T. rewrite (es0_proc _ _ _ X) in H. destruct (E _ _ _ H T) as (tev & H1).
     destruct (es0_ev _ _ X _ _ H1) as (ev' & H2 & _). exists ev'. exact H2.
+  - intros p pr H. rewrite (es0_proc _ _ _ X) in H. destruct (F0 _ _ H) as (iev & H1 & K1).
+    destruct (es0_ev _ _ X _ _ H1) as (ev' & H2 & S2). exists ev'. split; [exact H2|].
+    apply (proj1 (proj2 (proj2 (step_kind_fw _ _ S2)))), K1.
 Qed.
 
 Lemma invS_es s s' : evs_step s s' -> invS s -> invS s'.
@@ -355,7 +360,7 @@ Proof. intros Hf. apply inv_es, es_upd_event, Hf. Qed.
 
 (* groups that do not look at the agenda *)
 Lemma invS_frame s s' : events s' = events s -> procs s' = procs s -> invS s -> invS s'.
-Proof. destruct s, s'. cbn. intros -> ->. intros [A B C D E]. constructor; assumption. Qed.
+Proof. destruct s, s'. cbn. intros -> ->. intros [A B C D E F0]. constructor; assumption. Qed.
 
 Lemma invC_frame run pe pend s s' : events s' = events s -> procs s' = procs s -> invC run pe pend s -> invC run pe pend s'.
 Proof. destruct s, s'. cbn. intros -> ->. intros [A B C D E R0]. constructor; assumption. Qed.
@@ -394,7 +399,7 @@ Proof.
   assert (OLD : forall e x, get_event e s = Some x -> get_event e s' = Some x) by (intros; apply get_event_new_old; assumption).
   assert (PR : forall q, get_proc q s' = get_proc q s) by reflexivity.
   split; [|split].
-  - destruct HS as [A B C D E]. constructor.
+  - destruct HS as [A B C D E F0]. constructor.
     + intros p pr H. destruct (A _ _ H) as (ev0 & H0 & K0). exists ev0. auto.
     + intros e ev0 p H K. apply new_event_cases in H. destruct H as [H|(_ & -> & _)]; [eapply B; eassumption|].
       exfalso. exact (P0 _ K).
@@ -403,6 +408,7 @@ Proof.
     + intros i ev0 p H K. apply new_event_cases in H. destruct H as [H|(_ & -> & _)]; [eapply D; eassumption|].
       rewrite K in U0. discriminate.
     + intros p pr t H T. destruct (E _ _ _ H T) as (tev & H1). exists tev. auto.
+    + intros p pr H. destruct (F0 _ _ H) as (iev & H1 & K1). exists iev. auto.
   - destruct HC as [A B C D E R0]. constructor; [| | | | |exact R0].
     + intros e ev0 l i H Cl Hin. apply new_event_cases in H. destruct H as [H|(_ & -> & _)]; [eapply A; eassumption|].
       rewrite Cl0 in Cl. injection Cl as <-. apply Hl0 in Hin. discriminate.
@@ -614,7 +620,7 @@ Proof.
   assert (NEW : get_event i s1 = Some EV) by apply get_event_new_self.
   split; [|split].
   - apply (invS_frame s1); [reflexivity|reflexivity|].
-    destruct HS as [A B C D E]. constructor.
+    destruct HS as [A B C D E F0]. constructor.
     + intros q pr H. destruct (A _ _ H) as (ev0 & H0 & K0). exists ev0. auto.
     + intros e ev0 q H K. apply new_event_cases in H. destruct H as [H|(_ & -> & _)]; [eapply B; eassumption|discriminate].
     + intros j ev0 q H K. apply new_event_cases in H. destruct H as [H|(-> & -> & _)]; [eapply C; eassumption|].
@@ -622,6 +628,7 @@ Proof.
       right. exists []. reflexivity.
     + intros j ev0 q H K. apply new_event_cases in H. destruct H as [H|(_ & -> & _)]; [eapply D; eassumption|discriminate].
     + intros q pr t H T. destruct (E _ _ _ H T) as (tev & H1). exists tev. auto.
+    + intros q pr H. destruct (F0 _ _ H) as (iev & H1 & K1). exists iev. auto.
   - apply (invC_frame _ _ _ s1); [reflexivity|reflexivity|].
     destruct HC as [A B C D E R0]. constructor; [| | | | |exact R0].
     + intros e ev0 l j H Cl Hin. apply new_event_cases in H. destruct H as [H|(-> & -> & _)]; [eapply A; eassumption|].
@@ -759,7 +766,7 @@ Proof.
   assert (NOP : forall x, get_proc p s = Some x -> False) by (intros x H; apply get_proc_lt in H; unfold p in H; lia).
   assert (NOE : forall e x, get_event e s = Some x -> (e < n)%nat) by (intros e x H; apply get_event_lt in H; exact H).
   split; [|split].
-  - destruct HS as [A B C D E]. constructor.
+  - destruct HS as [A B C D E F0]. constructor.
     + intros q pr0 H. apply spawn_pr_cases in H. destruct H as [H|(-> & ->)].
       * destruct (A _ _ H) as (ev0 & H0 & K0). exists ev0. split; [apply spawn_ev_old, H0|exact K0].
       * exists (proc_event p). split; [apply spawn_ev_proc|reflexivity].
@@ -775,6 +782,9 @@ Proof.
     + intros q pr0 t H T. apply spawn_pr_cases in H. destruct H as [H|(-> & ->)].
       * destruct (E _ _ _ H T) as (tev & H1). exists tev. apply spawn_ev_old, H1.
       * cbn in T. injection T as <-. eexists. apply spawn_ev_init.
+    + intros q pr0 H. apply spawn_pr_cases in H. destruct H as [H|(-> & ->)].
+      * destruct (F0 _ _ H) as (iev & H1 & K1). exists iev. split; [apply spawn_ev_old, H1|exact K1].
+      * eexists. split; [apply spawn_ev_init|reflexivity].
   - destruct HC as [A B C D E R0]. constructor.
     + intros e ev0 l j H Cl Hin. apply spawn_ev_cases in H. destruct H as [H|[(-> & ->)|(-> & ->)]].
       * eapply A; eassumption.
